@@ -28,7 +28,10 @@ def handle_mismatches(res, prop, bad, runner, tag="", extra=None, regen=None):
     For a violation try to find a smaller failing case of the same operation first."""
     reported = set()
     for case, why, co, mo in bad:
-        e = match_known(prop, case, extra)
+        ex = dict(extra or {})
+        ex.update(why=why, fate=(co[0] if co else "MISSING"), model_fate=(mo[0] if mo else "MISSING"),
+                  windowed=any(l.startswith("win ") for l in case.lines))
+        e = match_known(prop, case, ex)
         if e is not None:
             res.known_finding("%s: %s" % (e.get("id", "?"), e.get("what", "")))
             continue
